@@ -375,7 +375,7 @@ def run_gauss(c, rec):
         # the covariance the cdf is computed from, and the cdf itself (scipy's Genz integration: loose tolerance)
         cov = must(lambda: d.compute_cov(), "compute_cov")
         cov = cov.toarray() if hasattr(cov, "toarray") else np.asarray(cov, dtype=float)
-        require(close(cov, S, 1e-6), "compute_cov() is not the covariance of the specified Gaussian", got=cov, want=S)
+        require(cov.shape == S.shape and maxdiff(cov, S) <= 1e-6 * float(np.max(np.abs(S))), "compute_cov() is not the covariance of the specified Gaussian", got=cov, want=S)
         if n <= 3 and hasattr(d, "cdf"):
             refused, gc = refuses(lambda: d.cdf(x.copy()))  # a scalar-stored mean is refused by scipy: no value, no claim
             if not refused:
@@ -493,7 +493,9 @@ def run_reassign(c, rec):
         if kind == "gaussian":
             dn = lambda M: M.toarray() if hasattr(M, "toarray") else np.asarray(M, dtype=float)
             cov1 = dn(must(lambda: d1.compute_cov(), "compute_cov"))
-            require(close(cov1, dn(d2.compute_cov()), 1e-8), "Gaussian.compute_cov after re-assignment is not the covariance of the new parameters")
+            cov2 = dn(d2.compute_cov())
+            require(cov1.shape == cov2.shape and maxdiff(cov1, cov2) <= 1e-8 * float(np.max(np.abs(cov2))),
+                    "Gaussian.compute_cov after re-assignment is not the covariance of the new parameters")
     finally:
         cuqi.config.MIN_DIM_SPARSE = old
 
